@@ -20,9 +20,14 @@ REPO = "/repo"
 GOENV = dict(os.environ, GOFLAGS="-mod=mod", GOPROXY="off", GOSUMDB="off", GOTOOLCHAIN="local")
 
 
-def sh(cmd, cwd=None, env=None, timeout=1800):
-    r = subprocess.run(cmd, cwd=cwd, env=env or GOENV, shell=isinstance(cmd, str), stdout=subprocess.PIPE,
-                       stderr=subprocess.STDOUT, text=True, timeout=timeout)
+def sh(cmd, cwd=None, env=None, timeout=1200):
+    try:
+        r = subprocess.run(cmd, cwd=cwd, env=env or GOENV, shell=isinstance(cmd, str), stdout=subprocess.PIPE,
+                           stderr=subprocess.STDOUT, text=True, timeout=timeout, start_new_session=True)
+    except subprocess.TimeoutExpired as e:
+        # a check that does not finish is a failed check (and must not leave /repo patched)
+        subprocess.run("pkill -f 'verif/.work' ; pkill -f hdrv ; pkill -f agent.test", shell=True)
+        return 124, "tier=? TIMEOUT after %ds: %s" % (timeout, " ".join(cmd) if not isinstance(cmd, str) else cmd)
     return r.returncode, r.stdout
 
 
